@@ -1,22 +1,31 @@
 package main
 
 // C09 — retry and dead-queue routing. Real RetriableBatcher (+ real Router.Fail into a dead-queue
-// Batcher) driven by harness/batchdrv with a scripted failure plan per batch.
+// Batcher) driven by harness/batchdrv with a scripted failure plan per batch (which = 0);
+// which = 1: the dead-queue wiring of fd/file.d.go, driven through fd.New(...).Start() with fake plugins (wiring.go).
 
 import (
+	"fmt"
 	"sync"
+	"time"
 
 	"verif/harness/batchdrv"
 	"verif/harness/hmain"
 	"verif/harness/hx"
 )
 
-func exec(which int, cs hx.Sx) hx.Sx { return batchdrv.RunCase(cs) }
+func exec(which int, cs hx.Sx) hx.Sx {
+	if which == 1 {
+		return execWiring(cs)
+	}
+	return batchdrv.RunCase(cs)
+}
 
 type job struct {
 	stream string
 	cs     hx.Sx
 	obs    hx.Sx
+	tm     batchdrv.Timing
 }
 
 func gen(c *hmain.Ctx) {
@@ -128,7 +137,160 @@ func gen(c *hmain.Ctx) {
 		p := hx.L(hx.L(hx.I(r.Range(1, 3)), hx.I(fails)), hx.L(hx.I(r.Intn(3)), hx.I(0)), hx.L(hx.I(0), hx.I(r.Intn(2))))
 		add("stop-mid-retry", hx.L(cfgSx(r.Range(2, 3), r.Range(1, 2), 10, retry, dq, 1, 2), hx.L(mkAdder(r.Range(2, 5), false)), p, hx.L(hx.I(1), hx.I(r.Range(2, 9)))))
 	}
+	// 5. backoff.Stop arm (backoff.go: `next == backoff.Stop || ...`): MinRetention 1 h, so that the first pause (>= 30 min with
+	//    the 0.5 randomisation) already crosses MaxElapsedTime (15 min): NextBackOff returns Stop on the FIRST failure whatever
+	//    AttemptNum says, and Out must give the batch up there and then (flag 2 of the give-up label) instead of arming a timer
+	//    with the negative duration Stop (-1).  Exhaustive: retry {-1, 0, 3} x failures 0..2 x dead queue on/off; no wall-clock
+	//    cost.  A regression that drops the Stop arm retries at once (time.NewTimer(-1) fires immediately) or sleeps 30 min:
+	//    oracle 'backoff-stop' below, and LStuck (monitor m_not_stuck) for the sleep
+	for _, retry := range []int{-1, 0, 3} {
+		for fails := 0; fails <= 2; fails++ {
+			for _, dq := range []bool{false, true} {
+				nextID = 0
+				parents = false
+				add("backoff-stop", hx.L(cfgSx(1, 2, 20, retry, dq, 1, 2), hx.L(mkAdder(2, false)), hx.L(hx.L(hx.I(0), hx.I(fails))),
+					hx.L(hx.I(0), hx.L(hx.I(0), hx.I(3600000), hx.I(100+100*(fails%2)), hx.I(0)))))
+			}
+		}
+	}
+	// 6. growing pauses: MinRetention 6..14 ms, Multiplier 1.5 / 2 / 3 (the drivers used to freeze 1 ms / 1.0), four or five
+	//    consecutive failures of the first batch, AttemptNum large enough (or negative) to see them all.  The k-th pause of a
+	//    batch is at least MinRetention * Multiplier^k / 2 (RandomizationFactor 0.5): oracle 'backoff-pauses-grow'.  A regression
+	//    that builds / resets the ExponentialBackOff inside the loop, or passes the wrong option, keeps every pause near
+	//    MinRetention and fails the bound at k >= 2
+	for i := 0; i < 14*c.Scale; i++ {
+		nextID = 0
+		parents = false
+		retry := r.Range(4, 7)
+		if r.Chance(1, 3) {
+			retry = -1 - r.Intn(3)
+		}
+		fails := r.Range(4, 5)
+		dq := r.Bool()
+		p := hx.L(hx.L(hx.I(r.Intn(3)), hx.I(fails)), hx.L(hx.I(0), hx.I(r.Intn(2))), hx.L(hx.I(0), hx.I(0)))
+		mult := []int{150, 200, 300}[r.Intn(3)]
+		add("backoff-growing", hx.L(cfgSx(r.Range(1, 3), r.Range(1, 2), 15, retry, dq, 1, 2), hx.L(mkAdder(r.Range(2, 5), false)), p,
+			hx.L(hx.I(0), hx.L(hx.I(0), hx.I(r.Range(6, 14)), hx.I(mult), hx.I(0)))))
+	}
+	// 7. the batcher's MaintenanceFn hook (batch.go work(): after commitBatch, when MaintenanceInterval has passed) on random
+	//    retry / dead-queue cases: the hook runs in the worker between two batches and sleeps 1 ms
+	for i := 0; i < 20*c.Scale; i++ {
+		nextID = 0
+		parents = r.Bool()
+		retry := r.Range(-2, 2)
+		add("maintenance", hx.L(cfgSx(r.Range(1, 3), r.Range(1, 3), r.Range(10, 30), retry, r.Bool(), 1, r.Range(1, 3)), hx.L(mkAdder(r.Range(4, 16), true)), plan(20, retry),
+			hx.L(hx.I(0), hx.L(hx.I(0), hx.I(0), hx.I(0), hx.I(r.Range(1, 20))))))
+	}
 	runJobs(c, jobs)
+	genWiring(c)
+}
+
+// 8. which = 1: the dead-queue wiring of fd/file.d.go (wiring.go).  Stream 'fd-wiring': configurations in which a wrong
+//    wiring cannot hide behind equal configs only where it is harmless — one pipeline; several pipelines of which at most one
+//    has a dead queue; several with the SAME dead-queue config — all must start every plugin with its own config.
+//    Stream 'fd-wiring-distinct' (2..4 pipelines with DIFFERENT dead-queue configs) is the witness family of the defect
+//    C09-deadqueue-config-shared (notes/finding-C09-deadqueue-config-shared.md, repaired by /repo commit a22405c; witness in
+//    corpus/C09): getStaticInfo stored the parsed dead-queue config into the registry's own PluginStaticInfo while all
+//    pipelines are parsed before any is started, so every dead queue of that plugin type started with the config parsed
+//    last.  A regression to the shared pointer makes every case of this stream Violate (kind-101 record, m_no_panic).
+func genWiring(c *hmain.Ctx) {
+	r := c.R
+	cfg9 := hx.L(hx.I(1), hx.I(1), hx.I(0), hx.I(20), hx.I(1), hx.I(0), hx.I(1), hx.I(1), hx.I(1))
+	mk := func(tags ...string) hx.Sx { return hx.L(cfg9, hx.Ss(tags), hx.L(), hx.L(hx.I(0), hx.I(0))) }
+	do := func(stream string, cs hx.Sx) {
+		n, dq := 0, 0
+		for _, t := range hx.Items(hx.Items(cs)[1]) {
+			n++
+			if hx.Str(t) != "" {
+				dq++
+			}
+		}
+		c.W.Count(fmt.Sprintf("fd wiring: %d pipelines, %d with a dead queue", n, dq))
+		c.Do(stream, 1, cs, true)
+	}
+	do("fd-wiring", mk("a"))
+	do("fd-wiring", mk(""))
+	do("fd-wiring", mk("a", ""))
+	do("fd-wiring", mk("", "b", ""))
+	do("fd-wiring", mk("same", "same"))
+	do("fd-wiring", mk("same", "", "same", "same"))
+	for i := 0; i < 4*c.Scale; i++ {
+		n := r.Range(2, 5)
+		tags := make([]string, n)
+		if r.Bool() {
+			tags[r.Intn(n)] = fmt.Sprintf("t%d", r.Intn(100))
+		} else {
+			t := fmt.Sprintf("t%d", r.Intn(100))
+			for k := range tags {
+				if r.Chance(2, 3) {
+					tags[k] = t
+				}
+			}
+		}
+		do("fd-wiring", mk(tags...))
+	}
+	do("fd-wiring-distinct", mk("a", "b"))
+	do("fd-wiring-distinct", mk("a", "", "b"))
+	for i := 0; i < 4*c.Scale; i++ {
+		n := r.Range(2, 4)
+		tags := make([]string, n)
+		for k := range tags {
+			tags[k] = fmt.Sprintf("t%d", k)
+		}
+		do("fd-wiring-distinct", mk(tags...))
+	}
+}
+
+// oracles: what the trace says about cenkalti/backoff as RetriableBatcher.Out drives it (props/C09.json, trusted base)
+func oracles(c *hmain.Ctx, j *job) {
+	cfg := j.tm.Cfg
+	retention := time.Millisecond
+	if cfg.RetentionMs > 0 {
+		retention = time.Duration(cfg.RetentionMs) * time.Millisecond
+	}
+	mult := 1.0
+	if cfg.MultPct > 0 {
+		mult = float64(cfg.MultPct) / 100
+	}
+	// the k-th pause of a batch is at least InitialInterval * Multiplier^k * (1 - RandomizationFactor), capped by MaxInterval (60 s)
+	for _, p := range j.tm.Pauses {
+		lo := float64(retention) * 0.5
+		for k := int64(0); k < p.Tries && lo < float64(30*time.Second); k++ {
+			lo *= mult
+		}
+		if lo > float64(30*time.Second) {
+			lo = float64(30 * time.Second)
+		}
+		c.W.Oracle("backoff-pauses-grow", float64(p.D) >= lo, fmt.Sprintf("batch %d pause %d lasted %v, expected at least %v (retention %v multiplier %.2f); case %s",
+			p.Seq, p.Tries, p.D, time.Duration(lo), retention, mult, hx.String(j.cs)))
+		c.W.Count(fmt.Sprintf("retry pause #%d observed (multiplier %.1f)", min(p.Tries, 5), mult))
+	}
+	// NextBackOff returns Stop exactly when elapsed + next pause > MaxElapsedTime (15 min): never in a run of a few seconds with
+	// pauses of milliseconds; on the first failure when the first pause is already >= 30 min * 0.5
+	for _, l := range hx.Items(j.obs) {
+		o := hx.Items(l)
+		if hx.Int(o[0]) != 0 {
+			continue
+		}
+		switch hx.Int(o[1]) {
+		case 14: // give-up: seq tries n flags
+			stop := hx.Int(o[5]) >= 2
+			if retention >= 30*time.Minute {
+				c.W.Oracle("backoff-stop", stop && hx.Int(o[3]) == 0, "first pause >= 15 min but the give-up is not a Stop at numTries 0: "+hx.String(l)+" case "+hx.String(j.cs))
+				c.W.Count("give-up by backoff.Stop")
+			} else if retention <= time.Second {
+				c.W.Oracle("backoff-stop", !stop, "Stop although elapsed + pause is far below 15 min: "+hx.String(l)+" case "+hx.String(j.cs))
+			}
+		case 12: // retry call: seq tries
+			if retention >= 30*time.Minute {
+				c.W.Oracle("backoff-stop", hx.Int(o[3]) == 0, "a retry was made although the pause before it crosses 15 min: "+hx.String(l)+" case "+hx.String(j.cs))
+			}
+		case batchdrv.LMaint:
+			if hx.Int(o[2]) == 1 {
+				c.W.Count("maintenance hook ran")
+			}
+		}
+	}
 }
 
 func runJobs(c *hmain.Ctx, jobs []*job) {
@@ -141,17 +303,18 @@ func runJobs(c *hmain.Ctx, jobs []*job) {
 		go func() {
 			defer wg.Done()
 			defer func() { <-sem }()
-			j.obs = batchdrv.RunCase(j.cs)
+			j.obs, j.tm = batchdrv.RunCaseT(j.cs)
 		}()
 	}
 	wg.Wait()
 	for _, j := range jobs {
+		oracles(c, j)
 		c.W.Case(j.stream, 0, j.cs, j.obs, true)
 	}
 }
 
 func main() {
 	hmain.Run(&hmain.Prop{ID: "C09",
-		Rule: "each case = (retriable batcher config incl. AttemptNum and dead queue, Add scripts, per-batch failure plan) run on the real RetriableBatcher + Router.Fail + dead-queue Batcher; observable = label trace of both batchers. Exhaustive stream: retry in {-1000000,-7,-3,-2,-1,0,1,2,3} x consecutive failures 0..retry+3 (0..4 for negative counts) x dead queue on/off. Every case is non-trivial; distinct = distinct case text.",
+		Rule: "each case = (retriable batcher config incl. AttemptNum and dead queue, Add scripts, per-batch failure plan) run on the real RetriableBatcher + Router.Fail + dead-queue Batcher; observable = label trace of both batchers. Exhaustive stream: retry in {-1000000,-7,-3,-2,-1,0,1,2,3} x consecutive failures 0..retry+3 (0..4 for negative counts) x dead queue on/off. Streams 'backoff-stop' (MinRetention 1 h: backoff.Stop on the first failure; retry {-1,0,3} x failures 0..2 x dead queue), 'backoff-growing' (MinRetention 6..14 ms, Multiplier 1.5/2/3, 4..5 consecutive failures: pause k >= MinRetention*Multiplier^k/2) and 'maintenance' (MaintenanceFn every 1..20 ms) carry the backoff / maintenance options in the stop tuple. which = 1 (streams 'fd-wiring', 'fd-wiring-distinct'): N pipelines parsed and started by fd.FileD, each output / dead-queue plugin reports the config it was started with. Every case is non-trivial; distinct = distinct case text.",
 		Gen:  gen, Exec: exec})
 }
